@@ -60,6 +60,121 @@ def _idx_ok(c):
     return [0 <= c.partition_index.t, c.partition_index.t < LLCnd.len(_Pz(c))]
 
 
+# ---------------------------------------------------------------------------
+# System W recursion over minimal falsification sets (DESIGN §5 C03, refinement step)
+#   MinFam(H, part)   the inclusion-minimal sets { c in part | w falsifies c }, w in H   (assumed: get_all_xi_i)
+#   ASA(X, Y)         every member of Y has a subset in X                                 (assumed: any_subset_of_all)
+#   FalP(l, n)        worlds falsifying each of the first n conditionals of l
+#   NfExcP(l, xi, n)  worlds falsifying none of the first n conditionals of l that are not in xi
+#   Exact(part, xi) = FalP(enum xi) ∩ NfExcP(part, xi): worlds whose falsified set within part is exactly xi
+#   WREC(P,V,F,H,i)  <=>  ASA(XV, XF)  and  for all xi in XV ∩ XF:  i > 0 and WREC(P,V,F, H ∩ Exact(P[i], xi), i-1)
+#                         where XV = MinFam(H ∩ V, P[i]), XF = MinFam(H ∩ F, P[i])
+# ---------------------------------------------------------------------------
+CSet = z3.SetSort(L.Cnd)
+Fam = z3.SetSort(CSet)
+SC = TSet(TCnd)
+SSC = TSet(SC)
+MinFam = z3.Function("MinFam", L.WSet, LCnd.sort, Fam)
+ASA = z3.Function("ASA", Fam, Fam, L.Bool)
+enumC, _eidxC, _cardC = L.enum_theory(L.Cnd)
+FalP = L.prefix_fun("FalP", [LCnd.sort], L.WSet, lambda l: L.FULL, lambda l, k, prev: L.inter(prev, L.fal(LCnd.at(l, k))))
+NfExcP = L.prefix_fun(
+    "NfExcP",
+    [LCnd.sort, CSet],
+    L.WSet,
+    lambda l, xi: L.FULL,
+    lambda l, xi, k, prev: z3.If(z3.IsMember(LCnd.at(l, k), xi), prev, L.inter(prev, L.nf(LCnd.at(l, k)))),
+)
+
+
+def Exact(H, part, xi):
+    """H restricted to the worlds whose falsified set within `part` is exactly xi
+    (association as the code builds it: first the falsifications, then the non-falsifications)"""
+    e = enumC(xi)
+    return L.inter(L.inter(H, FalP(e, LCnd.len(e))), NfExcP(part, xi, LCnd.len(part)))
+
+
+_wP = z3.Const("_w_P", LLCnd.sort)
+_wV, _wF, _wH = z3.Consts("_w_V _w_F _w_H", L.WSet)
+_wi, _wn = z3.Ints("_w_i _w_n")
+_wxi = z3.Const("_w_xi", CSet)
+witW = z3.Function("witW", LLCnd.sort, L.WSet, L.WSet, L.WSet, L.Int, CSet)
+_part = LLCnd.at(_wP, _wi)
+_XV = MinFam(L.inter(_wH, _wV), _part)
+_XF = MinFam(L.inter(_wH, _wF), _part)
+_S = z3.SetIntersect(_XV, _XF)
+_me = _WREC(_wP, _wV, _wF, _wH, _wi)
+
+
+def _next(xi):
+    return z3.And(_wi > 0, _WREC(_wP, _wV, _wF, Exact(_wH, _part, xi), _wi - 1))
+
+
+WREC_AXIOMS = [L.Forall([_wP, _wV, _wF, _wH, _wi], [_me], z3.Implies(_me, ASA(_XV, _XF)), "def.WREC.elim.asa")]
+WREC_AXIOMS.append(L.Forall(
+    [_wP, _wV, _wF, _wH, _wi, _wxi, _wn],
+    [_me, FalP(enumC(_wxi), _wn)],
+    z3.Implies(z3.And(_me, z3.IsMember(_wxi, _S)), _next(_wxi)),
+    "def.WREC.elim.all",
+))
+WREC_AXIOMS.append(L.Forall(
+    [_wP, _wV, _wF, _wH, _wi, _wxi],
+    [_me, z3.IsMember(_wxi, _S)],
+    z3.Implies(z3.And(_me, z3.IsMember(_wxi, _S)), _next(_wxi)),
+    "def.WREC.elim.all.member",
+))
+_wit = witW(_wP, _wV, _wF, _wH, _wi)
+WREC_AXIOMS.append(L.Forall(
+    [_wP, _wV, _wF, _wH, _wi],
+    [_me],
+    z3.Implies(z3.Not(_me), z3.Or(z3.Not(ASA(_XV, _XF)), z3.And(z3.IsMember(_wit, _S), z3.Not(_next(_wit))))),
+    "def.WREC.intro",
+))
+
+Contract(
+    "inference.system_w_z3:SystemWZ3.get_all_xi_i",
+    params={"self": WZ, "opt": TSolverT, "part": TList(TCnd)},
+    returns=SSC,
+    ensures=lambda c, r: [r.t == MinFam(c.old.A(c.old.opt), c.part.t)],
+    modifies=["opt"],
+    raises={"TimeoutError": lambda c: z3.BoolVal(True)},
+    trusted=True,
+    note="ASSUMED (TB-z3 MaxSAT optimum + blocking clauses): returns exactly the inclusion-minimal falsification sets "
+    "of `part` over the optimizer's hard set; may leave extra hard/soft constraints behind (callers pop); bounded by C03/C15 modules",
+)
+Contract(
+    "inference.system_w_z3:any_subset_of_all",
+    params={"A": SSC, "B": SSC},
+    returns=TBool,
+    ensures=lambda c, r: [r.t == ASA(c._st.env["A"].t, c._st.env["B"].t)],  # (View.A is the solver accessor)
+    trusted=True,
+    note="ASSUMED (all/any over generators are outside Engine P): every member of B has a subset in A; checked "
+    "exhaustively on small universes by the bounded module `pure`",
+)
+
+
+def _w_inv_outer(s, j, pre):
+    P, q, i = _Pz(s), s.query.t, s.partition_index.t
+    H = pre.A(pre.opt)
+    es = enumC  # noqa
+    S = z3.SetIntersect(s.xi_i_set.t, s.xi_i_prime_set.t)
+    lst = L.enum_theory(CSet)[0](S)
+    LCS = L.list_theory(CSet)
+    k = z3.Int("_wo_k")
+    return [
+        s.A(s.opt) == H,
+        L.Forall(
+            [k],
+            [LCS.at(lst, k)],
+            z3.Implies(
+                z3.And(0 <= k, k < j),
+                z3.And(i > 0, _WREC(P, L.ver(q), L.fal(q), Exact(H, LLCnd.at(P, i), LCS.at(lst, k)), i - 1)),
+            ),
+            "ties.hold.so.far",
+        ),
+    ]
+
+
 Contract(
     "inference.system_w_z3:SystemWZ3._rec_inference",
     params={"self": WZ, "opt": TSolverT, "partition_index": TInt, "query": TCnd},
@@ -67,9 +182,22 @@ Contract(
     requires=_idx_ok,
     ensures=lambda c, r: [r.t == WREC(_Pz(c), c.query.t, c.old.A(c.old.opt), c.partition_index.t), c.A(c.opt) == c.old.A(c.old.opt)],
     raises={"TimeoutError": lambda c: z3.BoolVal(True)},
-    trusted=True,
-    note="ASSUMED: the recursion over minimal correction sets computes Wrec for the optimizer's current hard set "
-    "and restores the optimizer (push/pop); decided by Engine B only (C03, C07)",
+    modifies=["opt"],
+    fuel=3,
+    axioms=WREC_AXIOMS,
+    loops={
+        0: LoopSpec("for xi_i in xi_i_set & xi_i_prime_set", _w_inv_outer),
+        1: LoopSpec(
+            "[... for c in xi_i]",
+            lambda s, j, pre: [s.A(s.opt) == L.inter(pre.A(pre.opt), FalP(enumC(s.xi_i.t), j))],
+        ),
+        2: LoopSpec(
+            "[... for c in part]",
+            lambda s, j, pre: [s.A(s.opt) == L.inter(pre.A(pre.opt), NfExcP(s.part.t, s.xi_i.t, j))],
+        ),
+    },
+    properties=["C03", "C07", "C11"],
+    note="refinement of the real recursion to WREC under the assumed contracts of get_all_xi_i / any_subset_of_all",
 )
 Contract(
     "inference.lex_inf_z3:LexInfZ3._rec_inference",
